@@ -183,6 +183,7 @@ Theorem C04_nonvacuous :
   ((sum_pos ex_some <= 1)%Q /\ n_fix ex_some < length ex_some
    /\ (1 < sum_pos ex_over)%Q /\ (sum_pos ex_under < 1)%Q /\ n_fix ex_under = length ex_under).
 Proof. exact weigh_example_hyps. Qed.
+Print Assumptions C04_nonvacuous.
 
 (* ---- end to end (exact-rational instance): weighTargets on any non-empty target list, whatever
    the unstable sort does: a ring without nil slots in which a zero weight has no slot and a
@@ -402,6 +403,7 @@ Print Assumptions C04_repaired_witnesses_ok.
 Theorem C04_binary64_domain_nonvacuous :
   sane_fixed (f64_of_bits 4599075939470750515) /\ sane_fixed (f64_of_bits 0).
 Proof. exact sane_fixed_nonvacuous. Qed.
+Print Assumptions C04_binary64_domain_nonvacuous.
 
 (* ---- connections on a listener (Model/ListenerPick.v: main.go's wiring of an `https+tcp+sni` listener
    under proxy.strategy = rr: the tcpproxy matcher looks the server name up, then the SNI proxy or the http
@@ -464,6 +466,7 @@ Theorem C04_listener_nonvacuous :
         [{| lr_n := 2; lr_ring := [Some 0; Some 1]; lr_total := 4 |};
          {| lr_n := 3; lr_ring := [Some 0; Some 1; Some 2]; lr_total := 3 |}]).
 Proof. exact listener_nonvacuous. Qed.
+Print Assumptions C04_listener_nonvacuous.
 
 (* FIXED FINDING F-C04-4 (repaired by 971ce92): with the matcher as it was (the configured picker: two
    picks per connection) a route of two targets with equal weights sends EVERY connection to the second
